@@ -331,6 +331,12 @@ def nontrivial(case, obs):
     return hs != "-" and toks != "-"
 
 
+def project(pid, case, line):
+    """The comparison covers all four fields: sink bytes, handler invocation counts, the documented
+    output (Lean `Spec.EditDoc.rewrite` vs the harness's reference editor) and the `clean` flag."""
+    return line
+
+
 def stats(cases, obs):
     from collections import Counter
     c = Counter()
@@ -349,7 +355,17 @@ def stats(cases, obs):
         for k in ("si.", "rp.", "rm", "rk", "tn.", "oe.", "st.", ".s"):
             c["cases_with_op_" + k] += any(k in h for h in hl)
         if o is not None:
-            inv = o.split()[1] if len(o.split()) > 1 else "-"
-            c["cases_with_invocation"] += any(x not in ("0", "-") for x in inv.split(","))
+            f = o.split(" ||ORACLE:")[0].split()
+            if len(f) == 4:
+                out, inv, expected, clean = f
+                c["cases_with_invocation"] += any(x not in ("0", "-") for x in inv.split(","))
+                c["output_differs_from_input"] += out != "".join(t.split(":")[1].replace("-", "") for t in tl) or False
+                c["clean"] += clean == "1"
+                c["out_ne_documented"] += out != expected
+                c["clean_and_out_ne_documented"] += clean == "1" and out != expected
+            else:
+                c["obs_" + f[0]] += 1
             c["oracle_flagged"] += "||ORACLE" in o
+            for tag in ("implicit-close", "unclosed-eof", "other"):
+                c["oracle_" + tag] += ("||ORACLE:C07:" + tag) in o
     return dict(c)
